@@ -164,3 +164,34 @@ Fixpoint assemble (l : list (list N * fval)) (c : ycfg) : option ycfg :=
   match l with [] => Some c | kv :: r => match set_field c kv with Some c' => assemble r c' | None => None end end.
 Definition read_one_liner (s : list N) : option ycfg :=
   match read_mapping s with Some (l, []) => assemble l yempty | _ => None end.
+
+(* ---------- what the Markdown generator writes: only what differs from the defaults of the format ---------- *)
+(* TestCaseConfig::diff(self, other) and TestCaseConfig::with_defaults_from on the same record *)
+Definition oeqb {A} (eqb : A -> A -> bool) (a b : option A) : bool :=
+  match a, b with Some x, Some y => eqb x y | None, None => true | _, _ => false end.
+Definition pair_eqb (a b : N * N) : bool := (fst a =? fst b) && (snd a =? snd b).
+Definition wait_eqb (a b : N * N * option (list N)) : bool :=
+  pair_eqb (fst a) (fst b) && oeqb text_eqb (snd a) (snd b).
+Fixpoint env_get (k : list N) (e : list (list N * list N)) : option (list N) :=
+  match e with [] => None | (k', v) :: r => if text_eqb k k' then Some v else env_get k r end.
+Definition env_eqb (a b : list (list N * list N)) : bool :=
+  forallb (fun kv => oeqb text_eqb (env_get (fst kv) a) (env_get (fst kv) b)) (a ++ b).
+Definition keep {A} (eqb : A -> A -> bool) (a b : option A) : option A := if oeqb eqb a b then None else a.
+Definition ydiff (c d : ycfg) : ycfg :=
+  mkY (keep N.eqb (y_os c) (y_os d)) (keep Bool.eqb (y_kc c) (y_kc d)) (keep pair_eqb (y_to c) (y_to d))
+      (keep Bool.eqb (y_de c) (y_de d)) (keep Z.eqb (y_sk c) (y_sk d)) (keep Bool.eqb (y_sa c) (y_sa d))
+      (keep wait_eqb (y_wa c) (y_wa d))
+      (if env_eqb (y_env c) (y_env d) then []
+       else filter (fun kv => match env_get (fst kv) (y_env d) with None => true | Some v => text_eqb v (snd kv) end) (y_env c)).
+Definition oor {A} (a b : option A) : option A := match a with Some _ => a | None => b end.
+(* variables of the defaults that the configuration does not set come first *)
+Definition ywith_defaults (s d : ycfg) : ycfg :=
+  mkY (oor (y_os s) (y_os d)) (oor (y_kc s) (y_kc d)) (oor (y_to s) (y_to d)) (oor (y_de s) (y_de d))
+      (oor (y_sk s) (y_sk d)) (oor (y_sa s) (y_sa d)) (oor (y_wa s) (y_wa d))
+      (filter (fun kv => match env_get (fst kv) (y_env s) with None => true | Some _ => false end) (y_env d) ++ y_env s).
+(* the header line of the generated block: ```scrut, then the one-liner of the difference unless that is empty *)
+Definition ycfg_is_empty (c : ycfg) : bool :=
+  match y_os c, y_kc c, y_to c, y_de c, y_sk c, y_sa c, y_wa c, y_env c with
+  | None, None, None, None, None, None, None, [] => true | _, _, _, _, _, _, _, _ => false end.
+Definition gen_config_suffix (c d : ycfg) : list N :=
+  let x := ydiff c d in if ycfg_is_empty x then [] else 32 :: one_liner x.
